@@ -13,12 +13,13 @@ func init() {
 		Explanation: "Structural consistency rules on the writers: (C05.1) every checksum is computed over exactly the bytes that precede the position where it is stored (same buffer, same linear offset) and nothing is stored into the covered range afterwards; every verifier compares stored and recomputed values over the same range and fails on inequality; " +
 			"(C05.2) every success return of Close is preceded by the update of the superblock's end-of-file address, conditional only on the allocator having moved; (C05.3) where an object header is written into space obtained from Allocate, the written size is compared with the allocated size; " +
 			"(C05.4) the heap's persistent insert cursor (shared with C15/C10); the v0 root span and allocated-address obligations of C04.2 also belong here.",
-		DoesNotDecide: "conformance to the HDF5 specification as such (e.g. missing v2 object-header checksum), overlap-freedom of a whole file, decodability by an independent implementation, numeric correctness of the Fletcher-32 sum",
+		DoesNotDecide: "conformance to the HDF5 specification as such (e.g. missing v2 object-header checksum), overlap-freedom of a whole file, decodability by an independent implementation, agreement of the Fletcher-32 sum with the reference implementation's",
 		Rules: map[string]string{
 			"C05.1": "checksum range = bytes before the stored checksum; verifiers compare over the same range and fail on mismatch",
 			"C05.2": "the superblock end-of-file address is brought up to date before Close reports success",
 			"C05.3": "allocated size = serialised size for object headers (written size compared with the allocation)",
 			"C05.4": "heap insert cursor: restored from the iterator offset only, advanced by inserts only",
+			"C05.5": "the Fletcher-32 sum stored with filtered chunks reads every byte and its 32-bit accumulators cannot wrap (shared with C08.4)",
 		},
 	}, ruleC05)
 	for _, f := range []string{"hdf5.FileWriter.CreateSoftLink", "hdf5.FileWriter.CreateExternalLink"} {
@@ -229,6 +230,12 @@ func ruleC05(c *Ctx, r *Result) {
 	// ---- C05.4 heap cursor
 	ruleHeapCursor(c, r, "C05.4")
 	r.Floor("C05.4", 4)
+
+	if sum := c.Fn(r, "writer.calculateFletcher32"); sum != nil {
+		c08sumCoverage(c, r, sum, "C05.5")
+		c08sumNoWrap(c, r, sum, "C05.5")
+	}
+	r.Floor("C05.5", 3)
 }
 
 // sameBuffer: two slice operands denote the same buffer value (possibly through re-slicing from 0).
